@@ -175,7 +175,10 @@ def h_modulo_counter(ctx, cfg):
   ref = _mc_ref(ctx, starts, mods, steps, n)
   for k in range(min(n, len(out))):
     y = out[k]; total, mk = ref[k]
-    ctx.observe("c", y)
+    obs = y
+    if ctx.mode != "sym" and isinstance(y, float) and abs(y - float(mk)) < 1e-7:
+      obs = 0.0       # native float run: a value one rounding error below the modulo is the representative of 0
+    ctx.observe("c", obs)
     ctx.prove(And(ctx.le(0, y), y < mk), "counter-in-[0,modulo)", "k=%d" % k)
     ctx.prove(ctx.is_int((total - y) / mk), "counter-is-running-sum-mod-modulo", "k=%d" % k)
 
